@@ -516,6 +516,13 @@ def run_slots(shard, spec):
                 a = (regs[hi] * 256 + regs[hi + 1]) & 0xFFFF if hi != 12 else regs[12]
                 for d in (-1, 0, 1, 2):
                     patches.setdefault((a + d) & 0xFFFF, rng.randrange(256))
+            if b[0] == 0xED and b[1] & 0xE4 == 0xA0:
+                # block instructions: aim at the values that decide whether they repeat (BC/B = 1, 2, 0; compare finds A at (HL))
+                if rng.random() < 0.5:
+                    regs[2], regs[3] = rng.choice([(0, 1), (0, 2), (0, 0), (1, 0), (1, 1), (2, 0xFF)])
+                hl = (regs[6] * 256 + regs[7]) & 0xFFFF
+                if b[1] & 0x03 == 0x01 and rng.random() < 0.5 and not addr <= hl < addr + 6:
+                    patches[hl] = regs[0]
             out = []
             for kind in pair:
                 m = machine(kind)
